@@ -22,7 +22,6 @@ import json
 import os
 import random
 import re
-import shutil
 import string
 import tempfile
 import warnings
@@ -38,7 +37,6 @@ DELIM_PAIRS = [('+', '='), ('+', '<=>'), ('.', '>>'), (' ; ', '<=>'), ('|', '->'
 ELEMENT_SYMBOLS = ['H', 'He', 'C', 'N', 'O', 'F', 'Na', 'Mg', 'Al', 'Si', 'P', 'S', 'Cl', 'K', 'Ca',
                    'Fe', 'Co', 'Ni', 'Cu', 'Zn', 'Pt', 'Pd', 'Au', 'Ag', 'Os', 'B', 'Br', 'I', 'W', 'U']
 _NUMERAL = re.compile(r'^\d{1,9}(\.\d{0,18})?$')
-_TMP = {}
 
 
 def codes(s):
@@ -130,24 +128,12 @@ def _parse_event(text, spd, rxd, species, strict, src):
     return ev, got
 
 
-def _tmpdir():
-    pid = os.getpid()
-    if pid not in _TMP:
-        _TMP.clear()
-        _TMP[pid] = tempfile.mkdtemp(prefix='c14_ring_')
-        import atexit
-        import multiprocessing.util as mpu
-        mpu.Finalize(None, shutil.rmtree, args=(_TMP[pid], True), exitpriority=1)
-        atexit.register(shutil.rmtree, _TMP[pid], True)
-    return _TMP[pid]
-
-
 def _ring_event(lines, spd, rxd, species):
     from pmutt.io.ring import read_reactions
     ev = {'ev': 'ring', 'lines': [codes(ln) for ln in lines], 'spd': codes(spd), 'rxd': codes(rxd),
           'known': [codes(n) for n in sorted(species)], 'ok': False, 'err': [], 'rxns': []}
-    path = os.path.join(_tmpdir(), 'ring_%d.txt' % os.getpid())
-    with open(path, 'w') as f:
+    fd, path = tempfile.mkstemp(prefix='c14_ring_', suffix='.txt')
+    with os.fdopen(fd, 'w') as f:
         f.write('\n'.join(lines) + '\n')
     got = None
     try:
@@ -166,7 +152,7 @@ def _ring_event(lines, spd, rxd, species):
 
 
 def _ring_lines(text):
-    return ['! RING reaction list', text, '', 'pathway 12 of species list']
+    return ['RING reaction list', text, '', 'pathway 12 of species list']
 
 
 # --------------------------------------------------------------------------
@@ -237,10 +223,9 @@ def _exec_hand(case):
         events.append(rev)
     exp = case.get('expect')
     if exp is not None:
-        if missing is not None and case.get('missing_raises', True):
-            if got is not None or not uncodes(pev['err']).startswith('KeyError') \
-                    or ('"%s"' % missing) not in uncodes(pev['err']):
-                mism.append({'call': 'from_string', 'text': text, 'expected': 'KeyError naming %s' % missing,
+        if missing is not None:
+            if got is not None or uncodes(pev['err']).split(':')[0] != 'KeyError':
+                mism.append({'call': 'from_string', 'text': text, 'expected': 'KeyError (%s unknown)' % missing,
                              'got': uncodes(pev['err']) if got is None else _proj_units(got)})
         elif got is None:
             mism.append({'call': 'from_string', 'raised': uncodes(pev['err']), 'text': text})
@@ -437,36 +422,40 @@ def _random_hand_text(rnd, spd, rxd, n_ts=None):
     ints = '.' in spd or '.' in rxd
     pool = [_rand_name(rnd) for _ in range(4)]
 
+    names = set()
+    last = []
+
     def side(n):
         toks = []
+        del last[:]
         for _ in range(n):
             nm = rnd.choice(pool) if rnd.random() < 0.5 else _rand_name(rnd)
+            names.add(nm)
+            last.append(nm)
             num = _rand_numeral(rnd, ints)
             toks.append((num + ' ' * rnd.randint(0, 2) + nm) if num else nm)
         return toks, None
     states = [side(rnd.randint(1, 4))[0]]
+    ts_name = None
     if (rnd.random() < 0.35) if n_ts is None else n_ts:
         states.append(side(1)[0])
+        ts_name = last[0]
     states.append(side(rnd.randint(1, 4))[0])
 
     def sp():
         return ' ' * rnd.randint(0, 3)
     text = sp() + (sp() + rxd + sp()).join((sp() + spd + sp()).join(st) for st in states) + sp()
-    names = set()
-    for st in states:
-        for tok in st:
-            names.add(re.sub(r'^\d+\.?\d*\s*', '', tok))
-    return text, sorted(names), states
+    return text, sorted(names), ts_name
 
 
 def _random_hand(rnd):
     spd, rxd = _rand_delims(rnd)
-    text, names, states = _random_hand_text(rnd, spd, rxd)
+    text, names, ts_name = _random_hand_text(rnd, spd, rxd)
     case = {'kind': 'hand', 'src': 'random', 'text': text, 'spd': spd, 'rxd': rxd, 'names': names,
             'ring': rnd.random() < 0.25}
     m = rnd.random()
     if m < 0.2:
-        case['missing'] = rnd.choice(names)
+        case['missing'] = ts_name if (ts_name is not None and rnd.random() < 0.5) else rnd.choice(names)
         case['strict'] = rnd.random() < 0.6
     return case
 
@@ -476,7 +465,7 @@ def _random_ring(rnd):
     lines, names = [], set()
     for _ in range(rnd.randint(1, 4)):
         if rnd.random() < 0.3:
-            lines.append(rnd.choice(['', '! comment', 'species list', 'pathway 7']))
+            lines.append(rnd.choice(['', 'comment', 'species list', 'pathway 7']))
         else:
             text, nms, _ = _random_hand_text(rnd, spd, rxd)
             lines.append(text)
@@ -597,6 +586,44 @@ _REPLAY_CLAUSE = {'print': 'ReplayRoundTrip', 'hand': 'ReplayParse', 'ring': 'Re
                   'balance': 'ReplayBalance', 'formula': 'ReplayFormula'}
 
 
+def _vacuity(ctx, cases, traces):
+    """Run the trace spec once more on a sample that contains every bucket of cases and read
+    register 2 (situation counts): a clause whose antecedent never held would be vacuous."""
+    buckets = {}
+    for tid, case in enumerate(cases):
+        key = (case['kind'], case.get('src'), 'missing' in case, case.get('strict', True),
+               bool(case.get('hasTS')), bool(case.get('ring')))
+        buckets.setdefault(key, []).append(tid)
+    pick = set()
+    for tids in buckets.values():
+        pick.update(tids[:40])
+    pick.update(range(0, len(cases), max(1, len(cases) // 800)))
+    d = tempfile.mkdtemp(prefix='c14_vac_')
+    try:
+        path = os.path.join(d, 'trace.ndjson')
+        n = 0
+        with open(path, 'w') as f:
+            for tid in sorted(pick):
+                for ev in traces[tid][1]:
+                    f.write(json.dumps(dict(ev, tid=tid), separators=(',', ':')) + '\n')
+                    n += 1
+        r = core.run_tlc('Trace_RxnString', 'Trace', env={'TRACE_FILE': path, 'VACUITY': '1'}, workers=1, timeout=1500,
+                         metadir=os.path.join(d, 'meta'))
+    finally:
+        import shutil
+        shutil.rmtree(d, ignore_errors=True)
+    seen = None
+    for pv in r.prints():
+        if core.tagged(pv, 'SEEN'):
+            seen = core.parse_tla(pv)[1]
+    if r.rc != 0 or not isinstance(seen, dict):
+        raise core.MachineryError('vacuity pass of Trace_RxnString failed:\n' + r.out[-3000:])
+    ctx.coverage['situations_in_sample'] = {'lines': n, 'counts': seen}
+    never = sorted(k for k, v in seen.items() if v == 0)
+    if never:
+        raise core.MachineryError('vacuous: no recorded line exercised %s' % never)
+
+
 def _run_models(ctx):
     """(D): the design models side by side; variants that reproduce a defect must be rejected."""
     th = not ctx.quick
@@ -676,7 +703,11 @@ def run(ctx):
         if tid % 4999 == 0:
             ctx.sample({k: v for k, v in case.items() if k != 'expect'})
     ctx.coverage['cases_by_kind'] = kinds
-    fails, stats = core.validate_traces('Trace_RxnString', 'Trace', traces)
+    with cf.ThreadPoolExecutor(max_workers=2) as ex:
+        vac = ex.submit(_vacuity, ctx, cases, traces) if ctx.replay_case is None else None
+        fails, stats = core.validate_traces('Trace_RxnString', 'Trace', traces, shards=core.NCPU - 1)
+        if vac is not None:
+            vac.result()
     ctx.count('traces_validated_against_impl', len(traces))
     ctx.coverage['trace_lines'] = stats['lines']
     by_case = {}
@@ -686,6 +717,13 @@ def run(ctx):
         if clause in ('Unsupported', 'UnknownEvent', 'PadWitness', 'FormulaWitness'):
             raise core.MachineryError('trace clause %s on case %s' % (clause, json.dumps(cases[tid])[:600]))
         ctx.violation(clause, cases[tid], tags=_tags(cases[tid]), detail={'event_indices': idxs[:10]})
+    # interleave the clauses so that the (capped) list of printed replays shows each of them
+    rank, seen = [], {}
+    for v in ctx.violations:
+        seen[v['clause']] = seen.get(v['clause'], 0) + 1
+        rank.append(seen[v['clause']])
+    ctx.violations[:] = [v for _, _, v in sorted(zip(rank, range(len(rank)), ctx.violations),
+                                                 key=lambda t: (t[0], t[1]))]
     ctx.assume('coefficients are read as the decimal text of repr(float) (exact to 18 fractional digits); '
                'range 0.001 <= c <= 30, formats .0f-.3f')
     ctx.assume('species names contain neither delimiter, do not start with a digit or "."; delimiters are '
